@@ -52,6 +52,8 @@ impl Case for C04Case {
     fn execute(&self) -> Verdict {
         let mut v = Verdict::default();
         let mut w = World::booted(sched(self.sched_variant), self.entropy, false);
+        // a file a program line may LOAD or RUN by itself
+        w.disk.insert("G".into(), file_g());
         enter_program(&mut w, &self.base);
         let mut reply_pos = 0usize;
         let mut stopped_once = false;
@@ -82,11 +84,12 @@ impl Case for C04Case {
                         // a later CONT / RETURN / NEXT without an edit in between is legitimate
                         stopped_once = true;
                         edited_since_stop = false;
-                        let self_editing = before.contains(" DELETE") || before.contains(" NEW") || before.contains(":NEW") || before.contains(":DELETE");
+                        let self_editing = before.contains(" DELETE") || before.contains(" NEW") || before.contains(":NEW") || before.contains(":DELETE") || before.contains("LOAD \"G\"") || before.contains("RUN \"G\"");
                         if after != before && self_editing {
                             // GOTO n / GOSUB n entered a program that carries a DELETE or NEW statement
                             w.stats.bump("c04.program_edited_itself");
-                            edited_since_stop = true;
+                            let ran_file = w.events[o.ev_start..o.ev_end].iter().any(|e| matches!(e, Ev::RunFile(_)));
+                            edited_since_stop = !ran_file;
                         } else if after != before && w.fatal.is_none() {
                             fail = Some(Violation {
                                 key: "C04:direct-statement-edited-program".into(),
@@ -133,7 +136,10 @@ impl Case for C04Case {
                     if after != before {
                         w.stats.bump("fault.edit");
                         w.stats.bump("c04.program_edited_itself");
-                        edited_since_stop = true;
+                        // RUN "file" replaces the program and runs the new one: the stop that
+                        // followed belongs to the new program and may be continued
+                        let ran_file = w.events[o.ev_start..o.ev_end].iter().any(|e| matches!(e, Ev::RunFile(_)));
+                        edited_since_stop = !ran_file;
                     }
                 }
                 H::Load { name, lines } => {
@@ -149,6 +155,7 @@ impl Case for C04Case {
             let listing = w.listing_text();
             let lines: Vec<String> = listing.lines().map(|s| s.to_string()).collect();
             let mut f = World::booted(sched(self.sched_variant + 1), self.entropy, false);
+            f.disk.insert("G".into(), file_g());
             enter_program(&mut f, &lines);
             let twin_listing = f.listing_text();
             if twin_listing != listing {
@@ -324,6 +331,10 @@ impl Case for C04Case {
     }
 }
 
+fn file_g() -> Vec<String> {
+    ["10 PRINT \"G\";N%:N%=N%+1", "20 IF N%<2 THEN 10", "30 A=5:GOSUB 50", "40 END", "50 RETURN"].iter().map(|s| s.to_string()).collect()
+}
+
 fn probe_kind(p: &str) -> &'static str {
     if p == "RUN" {
         "RUN"
@@ -406,10 +417,12 @@ pub fn edit_line(rng: &mut Rng, prog: &Program, cfg: &GenCfg) -> String {
             // a line that edits the program when it is executed
             let n = pick_num(rng);
             let a = if nums.is_empty() { 10 } else { *rng.pick(&nums) };
-            match rng.below(4) {
+            match rng.below(6) {
                 0 => format!("{} DELETE {}", n, a),
                 1 => format!("{} DELETE {}-", n, a),
                 2 => format!("{} IF N%=0 THEN DELETE -{}", n, a),
+                3 => format!("{} LOAD \"G\"", n),
+                4 => format!("{} RUN \"G\"", n),
                 _ => format!("{} NEW", n),
             }
         }
@@ -505,10 +518,12 @@ impl Property for C04 {
             let first = prog.lines[0].num;
             let victim = prog.lines[rng.usize(prog.lines.len())].num;
             let at = prog.lines[rng.usize(prog.lines.len())].num;
-            let stmt = match rng.below(4) {
+            let stmt = match rng.below(7) {
                 0 => format!("DELETE {}", victim),
                 1 => format!("DELETE {}-", victim),
                 2 => format!("DELETE -{}", victim),
+                3..=4 => "LOAD \"G\"".to_string(),
+                5 => "RUN \"G\"".to_string(),
                 _ => "NEW".to_string(),
             };
             let num = if rng.pct(50) && first > 0 { first - 1 } else { at.saturating_add(1).min(65529) };
@@ -579,7 +594,7 @@ impl Property for C04 {
         }
     }
     fn rule(&self) -> &'static str {
-        "one evaluation = a generated base program, a history of 1-8 operations (insert/replace line, bare number of a present/absent line, DELETE in four range forms, RENUM with valid and invalid triples, NEW, LOAD from the SimDisk, harmless direct statements, a RUN stopped by Ctrl-C at a seeded instruction / STOP / END / error / a DELETE or NEW statement of the program itself) and a final probe (RUN, RUN n, CONT, RETURN, NEXT, NEXT v, a direct call of a user function the program defines) executed on the history-laden runtime and on a fresh twin fed get_listing() text, entropy aligned; distinct = distinct API/event log fingerprint; non-trivial = at least one effective edit and more than 10 VM instructions"
+        "one evaluation = a generated base program, a history of 1-8 operations (insert/replace line, bare number of a present/absent line, DELETE in four range forms, RENUM with valid and invalid triples, NEW, LOAD from the SimDisk, harmless direct statements, a RUN stopped by Ctrl-C at a seeded instruction / STOP / END / error / a DELETE, NEW, LOAD \"file\" or RUN \"file\" statement of the program itself) and a final probe (RUN, RUN n, CONT, RETURN, NEXT, NEXT v, a direct call of a user function the program defines) executed on the history-laden runtime and on a fresh twin fed get_listing() text, entropy aligned; distinct = distinct API/event log fingerprint; non-trivial = at least one effective edit and more than 10 VM instructions"
     }
     fn assumptions(&self) -> Vec<&'static str> {
         vec![
